@@ -31,7 +31,13 @@ const (
 	stallLate    = "late"     // calls RegisterPlugin >= 2 x the registration timeout after it was accepted
 	stallCfgHang = "cfg-hang" // registers, its Configure handler never answers
 	stallCfgErr  = "cfg-err"  // registers, answers Configure with an error
-	stallMulti   = "multi"    // calls RegisterPlugin several times on one connection (Attempts, GapMs, Final)
+	stallSyncErr = "sync-err" // registers, configures, answers Synchronize with an error
+	// the peer's ttRPC server does not register Configure / Synchronize / any Plugin service:
+	// ttRPC itself answers those requests with status Unimplemented
+	stallNoConfigure   = "no-configure"
+	stallNoSynchronize = "no-synchronize"
+	stallNoService     = "no-service"
+	stallMulti         = "multi" // calls RegisterPlugin several times on one connection (Attempts, GapMs, Final)
 
 	finalSilence    = "silence"     // after the invalid attempts: nothing more
 	finalDisconnect = "disconnect"  // ... closes its connection
@@ -56,6 +62,12 @@ type Peer struct {
 	Attempts []Reg  `json:"attempts,omitempty"`
 	GapMs    int    `json:"gap_ms,omitempty"`
 	Final    string `json:"final,omitempty"`
+
+	// stalls "cfg-err" / "sync-err": the form of the error answer (errform_test.go); empty =
+	// a plain error.
+	ErrForm     string `json:"err_form,omitempty"`
+	ErrCode     int    `json:"err_code,omitempty"`
+	ErrSentinel string `json:"err_sentinel,omitempty"`
 }
 
 // Reg is one RegisterPlugin request.
@@ -131,7 +143,15 @@ func judgeSpec(p Peer) (valid bool, why string, timingOnly bool, open bool) {
 	case stallCfgHang:
 		reasons = append(reasons, "never answers Configure")
 	case stallCfgErr:
-		reasons = append(reasons, "answers Configure with an error")
+		reasons = append(reasons, "answers Configure with an error ("+errClass(p)+")")
+	case stallSyncErr:
+		reasons = append(reasons, "answers Synchronize with an error ("+errClass(p)+")")
+	case stallNoConfigure:
+		reasons = append(reasons, "its Plugin service has no Configure method (ttRPC answers Unimplemented)")
+	case stallNoSynchronize:
+		reasons = append(reasons, "its Plugin service has no Synchronize method (ttRPC answers Unimplemented)")
+	case stallNoService:
+		reasons = append(reasons, "it serves no Plugin service at all (ttRPC answers Unimplemented)")
 	case stallMulti:
 		switch p.Final {
 		case finalValidEarly, finalValidLate:
@@ -320,13 +340,14 @@ func genGoodPeer(t *rapid.T, label string) Peer {
 
 // genBadPeer starts from a good peer and breaks one (sometimes two) things. The three
 // defects that cost wall time (silent, late, cfg-hang, multi: one or two timeouts each) have a combined
-// weight of 7/20 so that the average case stays well below 0.4 s.
+// weight of 7/26 so that the average case stays well below 0.4 s.
 func genBadPeer(t *rapid.T, label string) Peer {
 	p := genGoodPeer(t, label)
 	defects := []string{
 		"idx", "mask", stallSilent, "name", stallCfgHang, "idx", stallLate, "mask", stallCfgErr,
 		"two", "idx", "mask", stallSilent, stallCfgHang, "idx", "mask", "name", stallCfgErr,
 		stallMulti, stallMulti,
+		stallSyncErr, stallNoConfigure, stallSyncErr, stallNoSynchronize, stallNoService, stallCfgErr,
 	}
 	apply := func(d string, l string) {
 		switch d {
@@ -338,6 +359,9 @@ func genBadPeer(t *rapid.T, label string) Peer {
 			p.Mask = genBadMask(t, l+"-mask")
 		case stallMulti:
 			genMulti(t, &p, l)
+		case stallCfgErr, stallSyncErr:
+			p.Stall = d
+			genErrForm(t, &p, l)
 		default:
 			p.Stall = d
 		}
@@ -351,6 +375,22 @@ func genBadPeer(t *rapid.T, label string) Peer {
 		apply(d, label)
 	}
 	return p
+}
+
+// genErrForm draws the form of a failing Configure / Synchronize answer.
+func genErrForm(t *rapid.T, p *Peer, label string) {
+	switch rapid.SampledFrom([]string{"status", "plain", "status", "wrap", "status", "bare"}).Draw(t, label+"-errform") {
+	case "status":
+		p.ErrForm = "status"
+		// Unimplemented (12) first: it is the code a ttRPC server produces by itself
+		p.ErrCode = rapid.SampledFrom([]int{12, 2, 12, 1, 3, 4, 5, 6, 7, 8, 9, 10, 11, 13, 14, 15, 16}).Draw(t, label+"-code")
+	case "wrap":
+		p.ErrForm = "wrap"
+		p.ErrSentinel = rapid.SampledFrom(sentinelNames).Draw(t, label+"-sentinel")
+	case "bare":
+		p.ErrForm = "bare"
+		p.ErrSentinel = rapid.SampledFrom(sentinelNames).Draw(t, label+"-sentinel")
+	}
 }
 
 // genBadReg draws one invalid registration: empty name, or an index off the valid form.
@@ -557,6 +597,19 @@ func regClasses(c C17Case) ev.Outcome {
 		if p.Stall != stallNone {
 			classes["stall:"+p.Stall] = true
 		}
+		if p.Stall == stallCfgErr || p.Stall == stallSyncErr {
+			form := p.ErrForm
+			if form == "" {
+				form = "plain"
+			}
+			classes["errform:"+form] = true
+			if form == "status" {
+				classes["errform:"+errClass(p)] = true
+			}
+		}
+		if p.Stall == stallNoConfigure || p.Stall == stallNoSynchronize || p.Stall == stallNoService || (p.ErrForm == "status" && p.ErrCode == 12) {
+			classes["answer:unimplemented"] = true
+		}
 	}
 	_ = openSoFar
 	if firstGood < 0 {
@@ -732,10 +785,24 @@ func runRegOnce(c C17Case) (v regVerdict) {
 			ok = true
 		}
 		if !ok {
-			// "any other plugin never receives synchronization or events"
+			// "any other plugin never receives synchronization or events". A plugin that fails
+			// (or does not implement) Synchronize necessarily was sent the Synchronize request;
+			// it must not become active: no events, no later requests.
 			var bad []string
-			if r.NSync > 0 {
+			syncFails := spec.Stall == stallSyncErr || spec.Stall == stallNoSynchronize
+			if r.NSync > 0 && !syncFails {
 				bad = append(bad, fmt.Sprintf("%d Synchronize", r.NSync))
+			}
+			// the same on the wire, which also sees requests no handler is registered for
+			var later []string
+			for _, m := range p.wireMethods() {
+				if m == "Configure" || (m == "Synchronize" && (syncFails || r.NSync > 0)) {
+					continue
+				}
+				later = append(later, m)
+			}
+			if len(later) > 0 && len(got) == 0 && r.Probes == 0 {
+				bad = append(bad, fmt.Sprintf("%d further requests on the wire (first: %s)", len(later), later[0]))
 			}
 			if len(got) > 0 {
 				bad = append(bad, fmt.Sprintf("%d events (first: event %d %s)", len(got), got[0].Event, got[0].Tag))
